@@ -382,3 +382,51 @@ Example c19_source_nonvacuous :
   SrcRun.agrees (SrcRun.run_srswor (SrcRun.orc_of_script us) SrcRun.junk_check (SrcRun.ztens [2%nat] [4; 3]%Z)
                    (SrcRun.ztens [2%nat] [2; 4]%Z) None) None = true.
 Proof. vm_compute. repeat split. Qed.
+
+(* ---- binomial_coefficient(length, count) - the WHOLE body, both branches --------------------------------------------- *)
+From PV Require C19.TieBinom C19.TieBinomModel.
+
+(* for every shape [sh], every pair of integer tensors of that shape (entries [lens], [cnts]; at least one element; ANY
+   integers) and every content of the memory torch.empty returns: the interpreted source raises RuntimeError exactly when
+   the model returns None (a negative entry), and otherwise returns the tensor of the model's values - through the
+   factorial branch (arange, x[0] = 1, cumprod, x[length], trunc_divide, the in-place masked_fill_) when max(length) <= 20
+   and through the Pascal table (empty, binom[..., 0] = 0, binom[0] = 1, the cumsum loop, flatten()[length + count *
+   (length_ + 1)]) otherwise *)
+Theorem c19_source_binom_is_model : forall junk sh lens cnts, length lens = length cnts -> lens <> [] ->
+  match binomial_coefficient lens cnts with
+  | None => exists st, SrcRun.run_binom junk (SrcRun.ztens sh lens) (SrcRun.ztens sh cnts) = Interp.Exc SrcRun.runtime_error st
+  | Some res => exists st, SrcRun.run_binom junk (SrcRun.ztens sh lens) (SrcRun.ztens sh cnts)
+                           = Interp.Ok (Value.enc (SrcRun.ztens sh res)) st
+  end.
+Proof. exact TieBinomModel.binom_tie. Qed.
+Print Assumptions c19_source_binom_is_model.
+
+(* COMPOSED with c19_binomial_is_pascal - purely about the interpreted source: on non-negative input it returns
+   Pascal's triangle, entry by entry (whichever branch runs) *)
+Theorem c19_source_binom_is_pascal : forall junk sh lens cnts, length lens = length cnts -> lens <> [] ->
+  Forall (fun v => (0 <= v)%Z) lens -> Forall (fun v => (0 <= v)%Z) cnts ->
+  exists st, SrcRun.run_binom junk (SrcRun.ztens sh lens) (SrcRun.ztens sh cnts)
+             = Interp.Ok (Value.enc (SrcRun.ztens sh
+                            (map (fun lc => choose (Z.to_nat (fst lc)) (Z.to_nat (snd lc))) (combine lens cnts)))) st.
+Proof. exact TieBinomModel.binom_source_is_pascal. Qed.
+Print Assumptions c19_source_binom_is_pascal.
+
+(* COMPOSED further with c19_binomial_pascal_eq_factorial: every returned entry with count <= length is
+   length! / (count! (length - count)!) *)
+Theorem c19_source_binom_is_factorial_quotient : forall junk sh lens cnts, length lens = length cnts -> lens <> [] ->
+  Forall (fun v => (0 <= v)%Z) lens -> Forall (fun v => (0 <= v)%Z) cnts ->
+  exists st res, SrcRun.run_binom junk (SrcRun.ztens sh lens) (SrcRun.ztens sh cnts)
+                 = Interp.Ok (Value.enc (SrcRun.ztens sh res)) st /\ length res = length lens /\
+    forall i, (i < length lens)%nat -> (nth i cnts 0 <= nth i lens 0)%Z ->
+      (nth i res 0 * zfact (Z.to_nat (nth i cnts 0)) * zfact (Z.to_nat (nth i lens 0) - Z.to_nat (nth i cnts 0))
+       = zfact (Z.to_nat (nth i lens 0)))%Z.
+Proof. exact TieBinomModel.binom_source_is_factorial_quotient. Qed.
+Print Assumptions c19_source_binom_is_factorial_quotient.
+
+Example c19_source_binom_nonvacuous :
+  SrcRun.agrees (SrcRun.run_binom SrcRun.junk_check (SrcRun.ztens [2%nat] [25; 5]%Z) (SrcRun.ztens [2%nat] [2; 3]%Z))
+                (Some ([2%nat], [300; 10]%Z)) = true /\
+  SrcRun.agrees (SrcRun.run_binom SrcRun.junk_check (SrcRun.ztens [3%nat] [5; 4; 0]%Z) (SrcRun.ztens [3%nat] [2; 5; 0]%Z))
+                (Some ([3%nat], [10; 0; 1]%Z)) = true /\
+  SrcRun.agrees (SrcRun.run_binom SrcRun.junk_check (SrcRun.ztens [1%nat] [5]%Z) (SrcRun.ztens [1%nat] [-1]%Z)) None = true.
+Proof. vm_compute. repeat split. Qed.
